@@ -612,6 +612,41 @@ fn new_case(name: &str, view: bool, c: Ctor, len: usize, out: &mut Out, st: &mut
     }
 }
 
+fn optmut_case(base: &[u8], out: &mut Out) {
+    let input = format!("c12optmut {}", hex(base));
+    // RFC 791: the options are the octets 20 .. 4*IHL of the header (none when IHL <= 5), as far as the buffer goes
+    let ihl = (base[0] & 0x0F) as usize;
+    let (s, e) = (20usize, (ihl * 4).max(20).min(base.len()));
+    let r = std::panic::catch_unwind(|| {
+        let mut b = base.to_vec();
+        let (n_mut, n_ro) = {
+            let mut p = Ipv4Packet::new(&mut b).unwrap();
+            let n_ro = p.get_options_raw().len();
+            let w = p.get_options_raw_mut();
+            for x in w.iter_mut() { *x = !*x; }
+            (w.len(), n_ro)
+        };
+        (b, n_mut, n_ro)
+    });
+    match r {
+        Err(e) => out.case(&input, "fault:panic", &format!("FAIL:C12:panic:{}", crate::panic_msg(e).replace(' ', "_"))),
+        Ok((after, n_mut, n_ro)) => {
+            let oracle = if after.len() != base.len() {
+                format!("FAIL:C12:length_changed:{}->{}", base.len(), after.len())
+            } else if n_mut != e - s {
+                format!("FAIL:C12:options_window_of_{}_octets_expected_{}", n_mut, e - s)
+            } else if n_mut != n_ro {
+                format!("FAIL:C12:mutable_window_{}_octets_read_only_window_{}", n_mut, n_ro)
+            } else if let Some(i) = (0..base.len()).find(|i| after[*i] != if *i >= s && *i < e { !base[*i] } else { base[*i] }) {
+                format!("FAIL:C12:octet_{}_{}_the_options_field_[{},{})_is_{:02x}_was_{:02x}", i, if i >= s && i < e { "inside" } else { "outside" }, s, e, after[i], base[i])
+            } else {
+                "ok".to_string()
+            };
+            out.case(&input, &hex(&after), &oracle);
+        }
+    }
+}
+
 fn pay_case(ty: &str, set: SetPayload, read: GetPayload, base: &[u8], payload: &[u8], out: &mut Out, st: &mut Stats) {
     let input = format!("c12pay {} {} {}", ty, hex(base), hex(payload));
     st.pay_cases += 1;
@@ -863,6 +898,27 @@ pub fn run(args: &Args, out: &mut Out) {
             }
         }
     }
+    // ---- the mutable options window of an IPv4 packet ----
+    // every IHL; buffers that end before, inside, at the end of and behind the options; every octet of the window
+    // the code hands out is complemented, so the line shows exactly which octets the window covers
+    let mut n_optmut = 0usize;
+    for ihl in 0..16usize {
+        let opt_end = (ihl * 4).max(20);
+        let mut lens: Vec<usize> = vec![20, 21, opt_end, opt_end + 1, opt_end + 8, 60, 61, 20 + rng.range(0, 60) as usize];
+        if opt_end > 21 { lens.push(opt_end - 1); lens.push(20 + (opt_end - 20) / 2); }
+        if thorough { for _ in 0..8 { lens.push(20 + rng.range(0, 80) as usize); } }
+        lens.sort_unstable();
+        lens.dedup();
+        for len in lens {
+            for k in 0..(if thorough { 4 } else { 2 }) {
+                let mut base = match k { 0 => rng.bytes(len), 1 => vec![0u8; len], _ => rng.bytes(len) };
+                base[0] = (base[0] & 0xF0) | ihl as u8;
+                optmut_case(&base, out);
+                n_optmut += 1;
+            }
+        }
+    }
+    out.stat("options_window_cases", n_optmut);
     out.stat("accessor_pairs", fs.len());
     out.stat("payload_setters", ps.len());
     out.stat("payload_cases", st.pay_cases);
